@@ -8,7 +8,7 @@
    StoreAppendBatch (one physical batch in channel order refines the item-by-item
    specification because appends to different channels commute). *)
 From WK Require Import Base.Base Model.KV Gen.Consts_C07 Model.MsgStore Model.MsgStore_C07
-     Proof.KV Proof.MsgStore_base Proof.MsgStore_rel Proof.MsgStore_reads Proof.MsgStore_C07.
+     Proof.KV Proof.MsgStore_base Proof.MsgStore_rel Proof.MsgStore_reads Proof.MsgStore_C07 Proof.MsgStore_C08.
 
 (* Forward simulation: every model step, together with the read-back the harness
    performs after it, is a step the plain sequential logs accept, and the
@@ -34,12 +34,25 @@ Theorem c07_model_satisfies_monitor :
 Proof. exact model_satisfies_monitor. Qed.
 Print Assumptions c07_model_satisfies_monitor.
 
-(* ... in particular for the executable instance used by the correspondence check *)
+(* ... in particular the refinement part of the monitor for the executable instance
+   used by the correspondence check (batches included) *)
+Theorem c07_spec_run_on_model :
+  forall (compact : bool) (ops : list op),
+    Forall op_okb ops ->
+    spec_run as_init (entries ops (snd (xrun compact ops))) = true.
+Proof. exact spec_run_on_model. Qed.
+Print Assumptions c07_spec_run_on_model.
+
+(* The WHOLE monitor = refinement + "no strict / server-allocated append that
+   retries a stored, untainted (sender, client msg no) pair is accepted".  The second
+   clause needs the soundness of the membership filter (proved for the exact filter and
+   the Bloom layers in Proof/MsgStore_C08.v); histories without the multi-channel
+   StoreAppendBatch ([op_ok]; the filter-coverage invariant is not proved through it). *)
 Theorem c07_monitor_zero_on_model :
   forall (compact : bool) (ops : list op) (kv : list kvent),
-    Forall op_okb ops ->
+    Forall op_ok ops ->
     C07_monitor (C07Case compact (entries ops (snd (xrun compact ops))) kv) = 0.
-Proof. exact monitor_zero_on_model. Qed.
+Proof. exact c07_monitor_zero_on_model. Qed.
 Print Assumptions c07_monitor_zero_on_model.
 
 (* Contiguity: in every reachable state the rows of a channel are strictly
@@ -156,4 +169,23 @@ Proof. repeat (constructor; [cbn; try tauto; repeat (constructor; [cbn; tauto|])
 Example c07_ex_batch_run :
   map fst (snd (xrun true ex_batch_ops)) =
   [ XBatch [(0, 0, 2); (0, 0, 1); (0, 0, 0)]; XBatch [(EInvalid, 0, 0); (EInvalid, 0, 0); (0, 2, 3)]; XN 3; XN 1 ].
+Proof. vm_compute. reflexivity. Qed.
+
+(* the retry clause is not vacuous: after a prefix trim that leaves row 3, a strict
+   append reusing row 3's (sender, client msg no) is ACCEPTED at seq 5 (the seeded
+   change C07-b: filter emptied by the trim) -- every dump is consistent with a
+   plain log holding rows 3, 4, 5, yet the monitor rejects the history *)
+Example c07_monitor_rejects_accepted_retry :
+  C07_monitor (C07Case true
+    [E (OAppend 0 0 0 [ex_rec 1 "7531" "6e31"; ex_rec 2 "7532" "6e32"; ex_rec 3 "7533" "6e33"; ex_rec 4 "7534" "6e34"]) (XApp 1 4 4) [];
+     E (OTrim 0 2 0%Z 0%Z) (XTrim 2 2 false) []; E (ORelease 0) XOk [];
+     E (OAppend 0 0 0 [ex_rec 50 "7533" "6e33"]) (XApp 5 5 1) []] []) = 1.
+Proof. vm_compute. reflexivity. Qed.
+
+(* ... while the model rejects the retry (ErrConflict) and passes *)
+Example c07_model_rejects_retry :
+  map fst (snd (xrun true
+    [OAppend 0 0 0 [ex_rec 1 "7531" "6e31"; ex_rec 2 "7532" "6e32"; ex_rec 3 "7533" "6e33"; ex_rec 4 "7534" "6e34"];
+     OTrim 0 2 0%Z 0%Z; ORelease 0; OAppend 0 0 0 [ex_rec 50 "7533" "6e33"]; OIdem 0 (hx "7533") (hx "6e33")]))
+  = [XApp 1 4 4; XTrim 2 2 false; XOk; XErr EConflict; XHit (Some (3, 3, 2, hashPayload [97]))].
 Proof. vm_compute. reflexivity. Qed.
